@@ -54,7 +54,7 @@ def h2(ctx):
     ctx.check(len(occ) == 1 and C.loop_exhaustive(b, occ[0]), "all-occurrences-visited", "every slot occurrence (including private ones) of an exposed node is visited",
               "enodes_applied does not visit every slot occurrence of the node (all_slot_occurrences_mut loop missing or left early): a bound slot can keep its stored name and be captured by an equal-named pattern slot", where_of(b))
     stores = [(bi, s) for bi, si, s in b.statements() if s["k"] == "assign" and s["lhs"]["p"] == ["*"] and "slot::Slot" in b.local_ty(s["lhs"]["l"])]
-    ctx.floor("slot overwrites in enodes_applied", len(stores), 2)
+    ctx.floor("slot overwrites in enodes_applied", len(stores), 1)
     fresh_store = False
     for bi, s in stores:
         r = strip_role(b.role_of_rvalue(s["rv"]))
@@ -62,8 +62,11 @@ def h2(ctx):
         guard = any(cond[0] == "false" and role_str(cond[1]).startswith("contains(") and role_mentions_field(cond[1], "slots") for e, cond in conds)
         ctx.check(guard, "rename-only-non-class-slots:%d" % bi, "a slot occurrence is renamed only if it is not a slot of the class",
                   "enodes_applied overwrites a slot occurrence without testing !class_slots.contains(slot)", where_of(b, bi, s.get("line")))
-        if r[0] == "call" and r[1] == "fresh":
+        members = [strip_role(x) for x in r[1]] if r[0] == "phi" else [r]
+        if any(isinstance(x, tuple) and x[0] == "call" and x[1] == "fresh" for x in members):
             fresh_store = True
+            rest = [x for x in members if not (isinstance(x, tuple) and x[0] == "call" and x[1] == "fresh")]
+            ctx.check(all(role_mentions_call(x, "get") for x in rest), "reuse-from-renaming-map:%d" % bi, "a repeated occurrence reuses the fresh name recorded for that slot", "a slot occurrence is overwritten with %s" % role_str(r), where_of(b, bi, s.get("line")))
         else:
             ok = role_mentions_call(r, "get")
             ctx.check(ok, "reuse-from-renaming-map:%d" % bi, "a repeated occurrence reuses the fresh name recorded for that slot", "a slot occurrence is overwritten with %s" % role_str(r), where_of(b, bi, s.get("line")))
@@ -83,6 +86,13 @@ def h2(ctx):
               "enodes_applied no longer maps uncovered public slots to fresh ones", where_of(b))
     cov = [c for c in ins if strip_role(b.role_of_operand(c.args[2]))[0] != "call" or strip_role(b.role_of_operand(c.args[2]))[1] != "fresh"]
     okc = any(role_mentions_field(b.role_of_operand(c.args[1]), "m") and role_mentions_param(b.role_of_operand(c.args[1]), "i") for c in cov)
+    # or the completed map starts out as a copy of i.m
+    for c in ins:
+        recv = strip_role(b.role_of_operand(c.args[0]))
+        if isinstance(recv, tuple) and recv[0] == "call" and recv[1] == "clone" or role_mentions_call(b.role_of_operand(c.args[0]), "clone"):
+            rr = b.role_of_operand(c.args[0])
+            if role_mentions_field(rr, "m") and role_mentions_param(rr, "i"):
+                okc = True
     ctx.check(okc, "covered-slots-follow-invocation", "covered slots are renamed by i.m", "enodes_applied no longer renames covered slots by the invocation's map", where_of(b))
     # the pushed node is the renamed one
     push = [c for c in b.calls if c.callee and c.callee.name == "push"]
